@@ -679,6 +679,155 @@ def run_c13(ctx):
     run_events(ctx, "rand_instructions", cs)
 
 
+def validate_file(ctx, stage, path, spec="TraceApi", chunk=4000):
+    vs, n, paths = pv.validate_events(path, os.path.join(ctx.work, "val_" + stage), spec=spec, chunk=chunk)
+    ctx.paths[stage] = paths
+    ctx.stats["events"] += n
+    ctx.stats["stages"].append(dict(stage=stage, events=n, non_ideal=len(vs)))
+    for v in vs:
+        ctx.verdicts.append((stage, v))
+    return n
+
+
+def run_c14(ctx):
+    q = ctx.tier == "quick"
+    # (A) the concurrency model: atomic counter => unique ids on all interleavings; the non-atomic twin must fail
+    for atomic, expect_ok in (("TRUE", True), ("FALSE", False)):
+        cfg = 'SPECIFICATION Spec\nCONSTANTS\n T = 3\n K = %d\n Atomic = %s\nINVARIANTS UniqueIds IncreasingPerThread\nPROPERTY NonInterference\nCHECK_DEADLOCK FALSE\n' % (2 if q else 3, atomic)
+        cp = os.path.join(ctx.work, "conc_%s.cfg" % atomic)
+        open(cp, "w").write(cfg)
+        r = pv.run(["timeout", "900", "tlc", "-workers", "8", "-config", cp, "-metadir", os.path.join(ctx.work, "st_conc"), "-cleanup", "-noGenerateSpecTE", "PushConc.tla"], cwd=pv.SPEC, env=pv.tlc_env())
+        ok = "No error has been found" in r.stdout
+        m = pv.TLC_STATS.search(r.stdout)
+        st = dict(tag="PushConc Atomic=" + atomic, states=int(m.group(2)) if m else 0, transitions=int(m.group(1)) if m else 0, expected="holds" if expect_ok else "UniqueIds violated (sensitivity twin)", ok=ok)
+        ctx.stats["tlc_runs"].append(st)
+        if expect_ok:
+            ctx.stats["states"] += st["states"]; ctx.stats["transitions"] += st["transitions"]
+        if ok != expect_ok or (not expect_ok and "Invariant UniqueIds is violated" not in r.stdout):
+            raise pv.ToolError("PushConc with Atomic=%s did not behave as expected:\n%s" % (atomic, r.stdout[-2000:]))
+    # (C1) determinism: the same programs alone, beside 15 other threads, in other orders, in the optimised build
+    skip = {"GRAPH.NODE*ADD", "EXEC.CMD", "NAME.RANDBOUNDNAME", "GRAPH.PRINT", "GRAPH.PRINT*DIFF", "GRAPH.NODES", "GRAPH.NODES*HISTORY",
+            "GRAPH.NODE*SUCCESSORS", "GRAPH.NODE*NEIGHBORS"}
+    reg = [n for n in ctx.registry if not n.endswith(".RAND") and n not in skip]
+    g = gen.Gen(ctx.seed + 121, reg)
+    cases = []
+    for i in range(150 if q else 5000):
+        s = g.program_state(g.r.randint(1, 40))
+        cases.append({"id": "det-%05d" % i, "pre": s, "steps": 150})
+    cp = os.path.join(ctx.work, "det.cases.ndjson")
+    with open(cp, "w") as f:
+        for c in cases: f.write(json.dumps(c) + "\n")
+    pv.build_harness("release")
+    outs = []
+    for prof, T in (("dev", 1), ("dev", 16), ("release", 4)):
+        op = os.path.join(ctx.work, "det_%s_%d.ndjson" % (prof, T))
+        r = pv.run(["timeout", "1800", pv.bin_path("pv-conc", prof), "det", cp, op, str(T)])
+        if r.returncode != 0:
+            raise pv.ToolError("pv-conc det failed: " + r.stdout[-1000:])
+        outs.append((prof, T, op))
+    merged = {}
+    for prof, T, op in outs:
+        for line in open(op):
+            e = json.loads(line)
+            for r in e["runs"]:
+                r["profile"] = prof; r["threads"] = T
+            if e["id"] in merged:
+                merged[e["id"]]["runs"].extend(e["runs"])
+            else:
+                merged[e["id"]] = e
+    mp = os.path.join(ctx.work, "det.events.ndjson")
+    with open(mp, "w") as f:
+        for e in merged.values(): f.write(json.dumps(e) + "\n")
+    ctx.stats["cases_replayed"] += len(cases)
+    validate_file(ctx, "determinism", mp, chunk=300)
+    e0 = next(iter(merged.values()))
+    ctx.samples.append({"stage": "determinism", "case": e0["id"], "runs": [(r["profile"], r["threads"], r["thread"], r.get("steps")) for r in e0["runs"]][:8]})
+    # (C2) node ids under concurrent creation
+    ip = os.path.join(ctx.work, "ids.events.ndjson")
+    r = pv.run(["timeout", "1800", pv.bin_path("pv-conc", "release"), "ids", ip, "16", "1250" if q else "5000", "8" if q else "125"])
+    if r.returncode != 0:
+        raise pv.ToolError("pv-conc ids failed: " + r.stdout[-1000:])
+    validate_file(ctx, "node_ids", ip, chunk=8)
+    # (C3) the command-line front end against the library
+    bdir = os.path.join(pv.HARNESS, "target", "repo-bin")
+    r = pv.run(["cargo", "build", "--offline", "--manifest-path", os.path.join(pv.REPO, "Cargo.toml"), "--bin", "pushr", "--target-dir", bdir])
+    if r.returncode != 0:
+        raise pv.ToolError("building the pushr binary failed:\n" + r.stdout[-2000:])
+    loopy = {"EXEC.Y", "EXEC.LOOP", "CODE.LOOP", "INTVECTOR.LOOP", "CODE.DO", "CODE.DO*", "EXEC.DUP"}
+    toks = [n for n in reg if n not in loopy]
+    cs = []
+    for i in range(15 if q else 400):
+        parts, depth = [], 0
+        for _ in range(g.r.randint(1, 30)):
+            k = g.r.random()
+            if k < 0.5: parts.append(g.r.choice(toks))
+            elif k < 0.7: parts.append(str(g.r.randint(-5, 9)))
+            elif k < 0.78: parts.append(g.r.choice(["TRUE", "FALSE", "1.5", "-0.25", "foo", "x1", "INT[1,2,3]", "BOOL[1,0]", "FLOAT[0.5,2]"]))
+            elif k < 0.9: parts.append("("); depth += 1
+            elif depth > 0: parts.append(")"); depth -= 1
+        parts += [")"] * depth
+        cs.append({"id": "cli-%04d" % i, "text": "( " + " ".join(parts) + " )"})
+    clp = os.path.join(ctx.work, "cli.cases.ndjson")
+    with open(clp, "w") as f:
+        for c in cs: f.write(json.dumps(c) + "\n")
+    cle = os.path.join(ctx.work, "cli.events.ndjson")
+    r = pv.run(["timeout", "3000", pv.bin_path("pv-conc", "dev"), "cli", os.path.join(bdir, "debug", "pushr"), clp, cle])
+    if r.returncode != 0:
+        raise pv.ToolError("pv-conc cli failed: " + r.stdout[-1000:])
+    validate_file(ctx, "cli", cle, chunk=100)
+
+
+def run_c15(ctx):
+    q = ctx.tier == "quick"
+    # (A) the cost model on the specification: unbounded cost only where listed; cases for replay
+    cfg = 'SPECIFICATION Spec\nCONSTANTS\n Mode = "cost"\nINVARIANTS CostInv Emit\nCHECK_DEADLOCK FALSE\n'
+    cases, st = pv.run_tlc_model("MC_Cost", cfg, ctx.work, workers=8, tag="mc_cost")
+    if "error" in st:
+        raise pv.ToolError("TLC failed on MC_Cost:\n" + st["error"])
+    ctx.stats["states"] += st["states"]; ctx.stats["transitions"] += st["transitions"]; ctx.stats["tlc_runs"].append(st)
+    # the doubling programs: PointsInv is expected to fail on the faithful model (documents F-MAXPOINTS)
+    cp = os.path.join(ctx.work, "grow.cfg")
+    open(cp, "w").write('SPECIFICATION Spec\nCONSTANTS\n Mode = "grow"\nINVARIANTS PointsInv\nCHECK_DEADLOCK FALSE\n')
+    pv.ensure_links()
+    r = pv.run(["timeout", "600", "tlc", "-workers", "4", "-config", cp, "-metadir", os.path.join(ctx.work, "st_grow"), "-cleanup", "-noGenerateSpecTE", "MC_Cost.tla"], cwd=pv.MC, env=pv.tlc_env())
+    ctx.stats["tlc_runs"].append(dict(tag="MC_Cost grow", expected="PointsInv violated (nothing enforces max_points_in_program)", violated="Invariant PointsInv is violated" in r.stdout))
+    if "Invariant PointsInv is violated" not in r.stdout:
+        raise pv.ToolError("MC_Cost grow: expected counterexample not produced:\n" + r.stdout[-1500:])
+    # (B) supervised, unguarded replay: 1 GiB address space, 6 s per case
+    cs = []
+    sel = cases if not q else [c for i, c in enumerate(cases) if c["predict"] == "unbounded" or i % 4 == 0]
+    for i, c in enumerate(sel):
+        pre = c["pre"]
+        if pre.get("bind") == []:
+            pre["bind"] = {}
+        cs.append({"id": "cost-%05d" % i, "pre": pre, "acts": [{"a": "step"}], "predict": c["predict"]})
+    run_events(ctx, "cost_replay", cs, mem_kb=1024 * 1024, timeout_case=6, env={"PV_UNGUARDED": "1"})
+    # random extreme operands for every instruction: predicted bounded unless the model says otherwise is
+    # decided by TLC only for the enumerated cases; here every instruction gets extreme integers and must
+    # not abort or hang (panics are C01's business)
+    g = gen.Gen(ctx.seed + 131, ctx.registry)
+    cs = []
+    listed = set(f[len("F-ALLOC-"):] for f in stages.load_findings() if f.startswith("F-ALLOC-"))
+    for name in ctx.registry:
+        if name in listed or name == "EXEC.CMD":
+            continue
+        for i in range(2 if q else 12):
+            s = g.state(depth=3)
+            s["int"] = [g.r.choice([2147483647, -2147483648, 2147483646, 100000, -1]) for _ in range(4)] + s["int"]
+            s["float"] = [g.r.choice(gen.F_POOL) for _ in range(3)] + s["float"]
+            s["exec"] = [ins(name), ins("NOOP")]
+            cs.append({"id": "extreme-%s-%d" % (name, i), "pre": s, "acts": [{"a": "step"}], "predict": "bounded"})
+    run_events(ctx, "extreme_operands", cs, mem_kb=1024 * 1024, timeout_case=6, env={"PV_UNGUARDED": "1"})
+    # (C) doubling programs under the default limits
+    cs = []
+    for i, body in enumerate([["CODE.DUP", "CODE.LIST"], ["CODE.DUP", "CODE.CONS"], ["CODE.DUP", "CODE.APPEND"], ["EXEC.DUP"], ["NAME.DUP", "NAME.CAT"]]):
+        s = gen.empty_state()
+        s["name"] = ["a"]
+        s["exec"] = [lst([ins("CODE.QUOTE"), lst([{"k": "int", "v": 1}]), ins("EXEC.Y"), lst([ins(b) for b in body])])]
+        cs.append({"id": "grow-%d" % i, "pre": s, "acts": [{"a": "grow", "k": 1000, "cap": 5000}]})
+    run_events(ctx, "doubling", cs, mem_kb=2 * 1024 * 1024, timeout_case=20)
+
+
 def all_instr_groups(ctx, small=True):
     """every registered instruction with operand stacks of every depth (frame / crash sweeps)"""
     reg = ctx.registry
@@ -725,6 +874,8 @@ PLANS = {
     "C08": dict(run=run_c08),
     "C09": dict(run=run_c09),
     "C10": dict(run=run_c10, judge=dict(frame=True)),
+    "C14": dict(run=run_c14),
+    "C15": dict(run=run_c15),
     "C16": dict(run=run_c16),
     "C17": dict(run=run_c17),
     "C18": dict(run=run_c18),
